@@ -1560,7 +1560,7 @@ class SimulationTrace(object):
         # file_timestamp = time.strftime("%a, %d %b %Y %H:%M:%S (UTC/GMT)", time.gmtime())
         # print >>file, " ".join(["$date", file_timestamp, "$end"])
         self.internal_names = _VerilogSanitizer('_vcd_tmp_')
-        for wire in self.wires_to_track:
+        for wire in sorted(self.wires_to_track, key=lambda w: w.name):
             self.internal_names.make_valid_string(wire.name)
 
         def _varname(wireName):
